@@ -218,7 +218,13 @@ def filters_and_merge_order(case, ctx):
 # ----------------------------------------------------------------------------
 def upd_case():
   return st.tuples(G.graph_strategy(), st.integers(0, 10**6),
-                   st.lists(st.integers(0, 30), max_size=4))
+                   st.lists(st.integers(0, 30), max_size=4),
+                   # metadata edits between taking the state and applying it:
+                   # (which Variable, on the graph or in the state, key)
+                   st.lists(st.tuples(st.integers(0, 30),
+                                      st.sampled_from(['graph', 'state']),
+                                      st.sampled_from(['note', 'frozen'])),
+                            max_size=3))
 
 
 @clause('update_identity', strategy=upd_case, quick=1000, thorough=80000,
@@ -226,10 +232,14 @@ def upd_case():
         rule='state(g) with every value mapped (v -> 2v+seed) and a random '
         'sub-set of paths dropped is applied with nnx.update: values of g '
         'become those of the state, every node and Variable of g keeps its '
-        'identity, untouched paths keep their values; non-trivial = graph has '
+        'identity, untouched paths keep their values; with 0-3 metadata keys '
+        'added on the graph or in the state in between, every updated '
+        'Variable ends with exactly the metadata of the applied state; '
+        'non-trivial = graph has '
         'an alias or cycle and >=2 Variables')
 def update_identity(case, ctx):
-  spec, seed, drops = case
+  spec, seed, drops, *rest = case
+  meta_edits = rest[0] if rest else []
   root, _, _ = G.build(spec)
   n0, v0 = G.identities(root)
   ref = G.first_paths(root)
@@ -272,8 +282,32 @@ def update_identity(case, ctx):
   if not new_flat:
     ctx.note(labels=['empty-update'])
     return
+  # metadata: a key added on the graph's Variable after the state was taken
+  # is gone after the update, a key added to the state arrives
+  var_at = {p: x for p, x in ref if G.is_var(x)}
+  vpaths = sorted(p for p in new_flat if p in var_at
+                  and hasattr(new_flat[p], 'get_metadata'))
+  edited = False
+  for pick, where, key in meta_edits:
+    if not vpaths:
+      break
+    p = vpaths[pick % len(vpaths)]
+    if where == 'graph':
+      setattr(var_at[p], key, f'g{pick}')
+    else:
+      md = dict(new_flat[p].get_metadata())
+      md[key] = f's{pick}'
+      new_flat[p] = type(new_flat[p])(new_flat[p].type, new_flat[p].value,
+                                      **md)
+    edited = True
+  want_meta = {p: G.var_meta(new_flat[p]) for p in vpaths}
   with sut('update'):
     nnx.update(root, statelib.from_flat_state(new_flat))
+  for p in vpaths:
+    got = G.var_meta(var_at[p])
+    require(got == want_meta[p], lambda: f'metadata of the Variable at {p} '
+            f'after update is {got}, the state that was applied carries '
+            f'{want_meta[p]}')
   n1, v1 = G.identities(root)
   require(set(n1) == set(n0), 'update replaced graph nodes')
   require(set(v1) == set(v0), 'update replaced Variable objects')
@@ -284,7 +318,8 @@ def update_identity(case, ctx):
     require(np.array_equal(after[p], exp), lambda: f'value at {p} after '
             f'update is {after[p]}, expected {exp}')
   labels, nt = label_graph(root)
-  ctx.note(labels=labels, nontrivial=nt and len(v0) >= 2)
+  ctx.note(labels=labels + (['metadata-edit'] if edited else []),
+           nontrivial=nt and len(v0) >= 2)
 
 
 # ----------------------------------------------------------------------------
